@@ -462,7 +462,7 @@ theorem nv_interD_lang : ∃ R, g2.interD dfaAB symOfAB toString 10 = some R ∧
 
 -- `substitute_lang` (`SubstOK`), `union_lang`, `concatenate_lang`, `closure_lang`, `posClosure_lang`
 theorem nv_substOK : SubstOK g3 [("c", g2), ("b", gFin)] := by
-  refine ⟨nv_g3_wf, ?_, by decide +kernel, by decide, ?_, by decide +kernel, ?_, by decide +kernel, ?_⟩
+  refine ⟨nv_g3_wf, ?_, by decide +kernel, ?_⟩
   all_goals
     intro e he
     simp only [List.mem_cons, List.not_mem_nil, or_false] at he
@@ -471,12 +471,25 @@ theorem nv_substOK : SubstOK g3 [("c", g2), ("b", gFin)] := by
   · exact nv_gFin_wf
   · decide
   · decide
-  · decide +kernel
-  · decide +kernel
-  · decide +kernel
-  · decide +kernel
-theorem nv_union_hyps : g2.start ≠ none ∧ g2.vars.Nodup ∧ (∀ t ∈ g2.ters, t ∉ g2.vars) ∧
-    gFin.start ≠ none ∧ gFin.vars.Nodup ∧ (∀ t ∈ gFin.ters, t ∉ gFin.vars) := by decide +kernel
+theorem nv_union_hyps : g2.start ≠ none ∧ gFin.start ≠ none := by decide +kernel
+/-- a grammar whose terminal `"S"` is spelled like its variable `"S"` (allowed since the repair of
+`Variable.__eq__`): the hypotheses of `substitute_lang` / `union_lang` hold for it as well -/
+def gSame : CFG :=
+  { vars := ["S"], ters := ["S", "a"], start := some "S"
+    prods := [("S", [.ter "S", .var "S"]), ("S", [.ter "a"])] }
+theorem nv_gSame_wf : gSame.WF := wf_of_check gSame (by decide +kernel)
+theorem nv_substOK_same : SubstOK gSame [("S", gSame)] := by
+  refine ⟨nv_gSame_wf, ?_, by decide +kernel, ?_⟩
+  all_goals
+    intro e he
+    simp only [List.mem_cons, List.not_mem_nil, or_false] at he
+    subst he
+  · exact nv_gSame_wf
+  · decide
+/-- `union_lang` instantiated with it: the word `S a` (terminals) is in the union with `g2` -/
+theorem nv_union_same : (gSame.union g2).Lang ["S", "a"] :=
+  (union_lang gSame g2 nv_gSame_wf nv_g2_wf (by decide) (by decide) ["S", "a"]).mpr
+    (Or.inl ((cfgMem_iff gSame ["S", "a"] 20 true (by decide +kernel)).mp rfl))
 
 -- `firstSet_spec`, `firstSet_ter`, `followSet_spec`, `table_spec`, `isLLOne_iff`, `parse_valid` (C14_Lib),
 -- `llParse_valid` (C14_LL1)
